@@ -1,5 +1,5 @@
 From Coq Require Import Lia.
-Require Import Base.Bytes Model.Frame Model.Split Lib.Bufio Spec.StreamSpec Proofs.SplitProofs Proofs.SegProofs Proofs.LemmaB Proofs.SegT Proofs.ScanThm1 Proofs.ScanThm2 Proofs.ScanThm3.
+Require Import Base.Bytes Model.Frame Model.Split Lib.Bufio Spec.StreamSpec Spec.Terminal Proofs.SplitProofs Proofs.SegProofs Proofs.LemmaB Proofs.SegT Proofs.ScanThm1 Proofs.ScanThm2 Proofs.ScanThm3.
 Open Scope nat_scope.
 
 Definition state_ok (s : scanner) (r : reader) : Prop :=
@@ -25,7 +25,7 @@ Proof.
            destruct Hconv as [Hc|Hc]; [left; exact Hc|right]. rewrite Hseg in Hc. exact Hc.
         -- right. rewrite Hfin. ssplit; assumption.
       * unfold bound, mu in *. lia.
-    + destruct H as (z & Hseg & Herr). rewrite Hseg, Herr. cbn [fst snd]. rewrite app_nil_r. reflexivity.
+    + destruct H as (z & Hseg & Herr & _). rewrite Hseg, Herr. cbn [fst snd]. rewrite app_nil_r. reflexivity.
   - (* error already recorded: drain the buffer *)
     pose proof (scan_err_state f s r (final r) He HG Hdr) as H.
     destruct (scan (S f) s r) as [[|] s' r'|]; [| |contradiction].
@@ -35,7 +35,7 @@ Proof.
       * right. ssplit; try assumption.
         destruct Hdr as [Hd|Hd]; [left; lia|right]. rewrite Hseg'. rewrite Hseg in Hd. exact Hd.
       * unfold bound in *. lia.
-    + destruct H as (Hseg & Herr). rewrite Hrest, app_nil_r, Hseg, Herr. cbn [fst snd tterm]. rewrite app_nil_r. reflexivity.
+    + destruct H as (Hseg & Herr & _). rewrite Hrest, app_nil_r, Hseg, Herr. cbn [fst snd tterm]. rewrite app_nil_r. reflexivity.
 Qed.
 
 (* The headline statement.  For every stream, every schedule of read sizes (0 included, at most 100 empty
